@@ -3,6 +3,8 @@ import re
 
 QUICK_NP = (1, 2, 3, 5)
 ALL_NP = (1, 2, 3, 4, 5, 6, 7, 8)
+# FromRows / FlattenSeq recurse once per matrix row: matrices of ~200 rows overflow the default Java thread stack
+XSS = {"JAVA_TOOL_OPTIONS": "-Xss64m"}
 
 
 def sig(rec, clauses):
@@ -47,7 +49,7 @@ def run(c):
         if not lines:
             return None
         open(t, "w").write("\n".join(lines) + "\n")
-        return c.tlc_trace("C11Trace", t, label=label, chunk=chunk)
+        return c.tlc_trace("C11Trace", t, label=label, chunk=chunk, env=XSS)
 
     def code():
         rd = c.build("record_dist", ["record_dist.cpp"], mpi=True)
@@ -72,7 +74,7 @@ def run(c):
                 sub = c.path("drift-%d.ndjson" % n)
                 pick = [x for x in res["lines"] if x.startswith('{"k":"pattern"') or x.startswith('{"k":"build"')]
                 open(sub, "w").write("\n".join(pick) + "\n")
-                res["drift"] = c.tlc_trace("C11Trace", sub, label="drift@%dranks" % n, env={"C11MODE": "drift"})["bad"] if pick else []
+                res["drift"] = c.tlc_trace("C11Trace", sub, label="drift@%dranks" % n, env=dict(XSS, C11MODE="drift"))["bad"] if pick else []
             return res
         for res in c.parallel([lambda j=j: one(j) for j in jobs], max_workers=3):
             if res is None:
